@@ -75,11 +75,15 @@ type dtData struct {
 
 var dtCtl = []string{"\x01", "\x0b", "\x1f", "\x00"}
 
+const dtCJK = "\u4e2d"
+
 func dtStr(toks []string) string {
 	var sb strings.Builder
 	for _, t := range toks {
 		if t == "CTL" {
 			sb.WriteString(dtCtl[int(seed)%len(dtCtl)])
+		} else if t == "CJK" {
+			sb.WriteString(dtCJK) // a multi-byte character: byte offsets and character offsets differ after it
 		} else {
 			sb.WriteString(t)
 		}
